@@ -21,7 +21,7 @@ ORIGIN_KINDS = [
 ]
 RAMP_CLASSES = ("MeteredOnRamp", "SimplifiedMeteredOnRamp")
 DEST_KINDS = ["Destination", "CongestedDestination"]
-JUNK = ["str", 7, None, 3.5, ("t",)]
+JUNK = ["str", 7, None, 3.5, ("t",), "@unhashable"]
 
 
 def gen_link_spec(rng: random.Random, i: int, name, max_seg=4, empty_vsl=True) -> dict:
@@ -142,6 +142,8 @@ class Universe:
         self.junk = {}
         for i, s in enumerate(spec.get("junk", [])):
             v = tuple(s) if isinstance(s, list) else s
+            if v == "@unhashable":
+                v = ["unhashable"]
             self.junk[f"x{i}"] = v
 
     def _put(self, ref, o):
